@@ -61,7 +61,7 @@ def settle(pid, alpha, cands, report, findings, kinds):
         if good is None:
             report.unreproduced.append({"sig": sig, "text": vs[0].get("text"), "what": vs[0]["what"], "replay": str(detail)[:200]})
             continue
-        what = f"{good['what']} -- input {good['text']!r} ({len(vs)} path classes)"
+        what = f"[{sig}] {good['what']} -- input {good['text']!r} ({len(vs)} path classes)"
         kf = findings.match(sig)
         if kf:
             report.known_hits[sig] = f"{kf['what']} [e.g. {good['text'].strip()!r}]"
